@@ -1,5 +1,58 @@
-"""bounded clauses of C03 on fitted objects (see rtc/battery.py)"""
-from rtc import battery
+"""bounded clauses of C03 on fitted objects (see rtc/battery.py) + ordinal features stored as numeric codes with a PRE-GROUPED ranking given on their string forms"""
+import random
+import numpy as np
+import pandas as pd
+from rtc import battery, zoo
+from rtc.battery import outcome
 ALL = ['Discretizer', 'QuantitativeDiscretizer', 'QualitativeDiscretizer', 'BinaryCarver', 'ContinuousCarver', 'MulticlassCarver', 'OrdinalDiscretizer', 'CategoricalDiscretizer', 'ContinuousDiscretizer']
+
+
+def coded_ordinal(seed):
+    """an ordinal feature stored as integer / float codes, its ranking given on the string forms '1' < '2' < ... with two neighbouring codes already grouped by the user:
+    fitted groups are runs of consecutive codes of that ranking, the pre-grouped codes stay together, and the float output is non-decreasing in the code"""
+    from AutoCarver.discretizers import GroupedList, QualitativeDiscretizer, Discretizer
+    from AutoCarver.carvers.binary_carver import BinaryCarver
+    rng = random.Random(seed); recs = []
+    k = rng.choice([4, 5, 6]); n = rng.choice([120, 200]); codes = list(range(1, k + 1)); j = rng.randrange(k - 1)          # codes j+1 and j+2 pre-grouped
+    w = [rng.random() + 0.3 for _ in codes]; col = rng.choices(codes, w, k=n); as_float = rng.random() < 0.5
+    X = pd.DataFrame({'o': pd.Series([float(c) for c in col] if as_float else col, dtype=float if as_float else object), 'q': [round(rng.random() * 5, 1) for _ in range(n)]})
+    y = pd.Series([int(rng.random() < 0.2 + 0.1 * c) for c in col])
+    content = {}
+    for i, c in enumerate(codes):
+        if i == j + 1: continue
+        content[str(c)] = [str(codes[j + 1]), str(c)] if i == j else [str(c)]
+    wit = dict(which='coded_ordinal', ranking=content, column=col, stored_as='float' if as_float else 'int', target=y.tolist())
+    for name, mk in (('QualitativeDiscretizer', lambda: QualitativeDiscretizer(qualitative_features=[], ordinal_features=['o'], values_orders={'o': GroupedList(content)}, min_freq=0.02, copy=True)),
+                     ('Discretizer', lambda: Discretizer(quantitative_features=['q'], qualitative_features=[], ordinal_features=['o'], values_orders={'o': GroupedList(content)}, min_freq=0.02, copy=True)),
+                     ('BinaryCarver', lambda: BinaryCarver(sort_by='tschuprowt', min_freq=0.02, quantitative_features=['q'], qualitative_features=[], ordinal_features=['o'], values_orders={'o': GroupedList(content)}, max_n_mod=4, output_dtype='float', dropna=True, copy=True, verbose=False))):
+        wk = dict(wit, kind=name)
+        try: o = mk(); o.fit(X, y)
+        except AssertionError: continue
+        except Exception as e:
+            recs.append(('C08:fit#raises.only_AssertionError', False, wk, '%s.fit raised %s: %s' % (name, type(e).__name__, str(e)[:200]))); continue
+        if 'o' not in o.features: continue
+        order = o.values_orders['o']; group_of = {}
+        for gi, l in enumerate(order):
+            for m in order.content[l]:
+                if isinstance(m, str) and m.isdigit(): group_of[int(m)] = gi
+        seq = [group_of.get(c) for c in codes]
+        ok_run = None not in seq and all(a <= b for a, b in zip(seq, seq[1:]))
+        recs.append(('C03:fit#post.ordinal_groups_are_consecutive_runs_of_the_ranking', ok_run, wk, '%s: codes %r sit in the groups number %r of the fitted order %r (not non-decreasing: the ranking was not kept)' % (name, codes, seq, dict(order.content))))
+        recs.append(('C03:fit#post.pre_grouped_values_stay_together', group_of.get(codes[j]) is not None and group_of.get(codes[j]) == group_of.get(codes[j + 1]), wk,
+                     '%s: the codes %r and %r were grouped by the user, fitted order %r' % (name, codes[j], codes[j + 1], dict(order.content))))
+        t = outcome(lambda: o.transform(X))
+        if t[0] == 'ok' and getattr(o, 'output_dtype', 'str') == 'float':
+            lab = {}
+            for c, v in zip(col, t[1]['o'].tolist()): lab.setdefault(c, set()).add(v)
+            vals = [sorted(lab[c])[0] for c in codes if c in lab]
+            recs.append(('C03:transform#post.ordinal_float_output_monotone_in_rank', all(len(lab[c]) == 1 for c in lab) and all(a <= b for a, b in zip(vals, vals[1:])), wk, '%s: float output per code %r' % (name, {c: sorted(lab[c]) for c in sorted(lab)})))
+    return recs
+
+
 def run(ctx):
     battery.run_battery(ctx, {'C03'}, kinds=ALL)
+    n = 12 if ctx.tier == 'quick' else 120
+    ctx.bound('coded ordinal features', '%d seeded ordinal features stored as int / float codes with a pre-grouped ranking on their string forms (QualitativeDiscretizer, Discretizer, BinaryCarver)' % n)
+    for recs in zoo.pmap(coded_ordinal, [ctx.seed * 19 + i for i in range(n)]):
+        for clause, ok, wit, msg in recs:
+            if clause.startswith('C03:'): ctx.check(clause[4:], clause[4:].split('#')[0], ok, wit, msg)
